@@ -24,11 +24,14 @@ import (
 // goroutine on its own view of the one bbolt database; the view stops the goroutine before each
 // database call that is an atomic step of the model (load of the order, CreateCertificate,
 // UpdateOrder's re-read, UpdateOrder's compare-and-swap) and lets it continue only when the
-// schedule names it. After every step the stored order status is read back.
+// schedule names it. After every step the stored order status is read back, and once more after
+// all requests have returned.
 
 type ConcCase struct {
-	Ths   string // e.g. "ff", "fp", "ffp"
+	Ths   string // e.g. "ff", "fp", "ffp"; Chal: responses "s" (proof in place), "t" (transient error), "j" (wrong proof)
 	Sched []int
+	// simultaneous responses to one pending http-01 challenge instead of requests on one ready order
+	Chal bool `json:",omitempty"`
 }
 
 var certTbl = []byte("acme_certs")
@@ -47,26 +50,123 @@ func (t *thread) gate() {
 // gateDB is one request's view of the store: its own clock offset, and the gates.
 type gateDB struct {
 	*shiftDB
-	th *thread
+	th  *thread
+	tbl []byte // the table of the contended record (nil: orders)
+}
+
+func (g *gateDB) table() []byte {
+	if g.tbl != nil {
+		return g.tbl
+	}
+	return orderTbl
 }
 
 func (g *gateDB) Get(bucket, key []byte) ([]byte, error) {
-	if bytes.Equal(bucket, orderTbl) {
+	if bytes.Equal(bucket, g.table()) {
 		g.th.gate()
 	}
 	return g.shiftDB.Get(bucket, key)
 }
 
 func (g *gateDB) CmpAndSwap(bucket, key, oldValue, newValue []byte) ([]byte, bool, error) {
-	if (bytes.Equal(bucket, orderTbl) && oldValue != nil) || bytes.Equal(bucket, certTbl) {
+	if (bytes.Equal(bucket, g.table()) && oldValue != nil) || (g.tbl == nil && bytes.Equal(bucket, certTbl)) {
 		g.th.gate()
 	}
 	return g.shiftDB.CmpAndSwap(bucket, key, oldValue, newValue)
 }
 
+// every write of the contended record is a step, however it is made
+func (g *gateDB) Set(bucket, key, value []byte) error {
+	if bytes.Equal(bucket, g.table()) {
+		g.th.gate()
+	}
+	return g.shiftDB.Set(bucket, key, value)
+}
+
 func (g *gateDB) List(bucket []byte) ([]*database.Entry, error) { return g.shiftDB.List(bucket) }
 
+// runConcChal: simultaneous responses to one pending http-01 challenge
+func runConcChal(k *ConcCase) (line, out string, err error) {
+	js, _ := json.Marshal(k)
+	dir, err := os.MkdirTemp(shmDir, "c")
+	if err != nil {
+		return "", "", err
+	}
+	defer os.RemoveAll(dir)
+	w, err := newWorld(dir)
+	if err != nil {
+		return "", "", err
+	}
+	defer w.raw.Close()
+	if _, _, _, eerr := w.exec(Op{K: "n", IDs: []string{"dns:a.example.com"}}, "/-//"); eerr != nil && eerr != errTick {
+		return "", "", eerr
+	}
+	ci := -1
+	for i, t := range w.chTyp {
+		if t == acme.HTTP01 {
+			ci = i
+		}
+	}
+	if ci < 0 || len(w.authzs) == 0 {
+		return "", "", fmt.Errorf("no http-01 challenge")
+	}
+	bg := context.Background()
+	x, gerr := w.db.GetChallenge(bg, w.chals[ci], "")
+	if gerr != nil {
+		return "", "", gerr
+	}
+	keyAuth, _ := acme.KeyAuthorization(x.Token, w.accs[0].Key)
+	ths := make([]*thread, len(k.Ths))
+	for i, kind := range k.Ths {
+		th := &thread{arrive: make(chan bool), cont: make(chan struct{})}
+		ths[i] = th
+		sh := &shiftDB{DB: w.raw, off: w.sh.off, createFail: -1}
+		db, derr := acmenosql.New(&gateDB{shiftDB: sh, th: th, tbl: chalTbl})
+		if derr != nil {
+			return "", "", derr
+		}
+		how := map[rune]string{'s': "ok", 't': "connerr", 'j': "mismatch"}[kind]
+		go func() {
+			ctx := w.ctx(0, []byte("{}"), &client{how: how, keyAuth: keyAuth}, map[string]string{"chID": w.chals[ci], "authzID": w.authzs[0]})
+			ctx = acme.NewDatabaseContext(ctx, db)
+			call(acmeapi.GetChallenge, ctx)
+			th.arrive <- true
+		}()
+		th.done = <-th.arrive
+	}
+	read := func() string {
+		c, cerr := w.db.GetChallenge(bg, w.chals[ci], "")
+		if cerr != nil {
+			return "!"
+		}
+		return st(c.Status)
+	}
+	var trace strings.Builder
+	for _, i := range k.Sched {
+		if i >= 0 && i < len(ths) && !ths[i].done {
+			ths[i].cont <- struct{}{}
+			ths[i].done = <-ths[i].arrive
+		}
+		trace.WriteString(read())
+	}
+	for _, th := range ths {
+		for !th.done {
+			th.cont <- struct{}{}
+			th.done = <-th.arrive
+		}
+	}
+	sched := make([]string, len(k.Sched))
+	for i, s := range k.Sched {
+		sched[i] = fmt.Sprint(s)
+	}
+	line = fmt.Sprintf("conc=chal ths=%s sched=%s case=x%s", strings.Join(strings.Split(k.Ths, ""), "."), strings.Join(sched, "."), hex.EncodeToString(js))
+	return line, fmt.Sprintf("cconc:%s=%s", trace.String(), read()), nil
+}
+
 func runConc(k *ConcCase) (line, out string, err error) {
+	if k.Chal {
+		return runConcChal(k)
+	}
 	js, _ := json.Marshal(k)
 	dir, err := os.MkdirTemp(shmDir, "c")
 	if err != nil {
@@ -135,6 +235,12 @@ func runConc(k *ConcCase) (line, out string, err error) {
 			th.done = <-th.arrive
 		}
 	}
+	// what is stored once every request has returned (a request may make database calls the model
+	// has no step for, e.g. a retry: they run here)
+	final := "!"
+	if o, gerr := w.db.GetOrder(bg, w.orders[0]); gerr == nil {
+		final = st(o.Status)
+	}
 	certs := 0
 	if entries, lerr := w.raw.List(certTbl); lerr == nil {
 		certs = len(entries)
@@ -145,10 +251,23 @@ func runConc(k *ConcCase) (line, out string, err error) {
 	}
 	kinds := strings.Split(k.Ths, "")
 	line = fmt.Sprintf("conc=reread ths=%s sched=%s case=x%s", strings.Join(kinds, "."), strings.Join(sched, "."), hex.EncodeToString(js))
-	return line, fmt.Sprintf("conc%d:%s", certs, trace.String()), nil
+	return line, fmt.Sprintf("conc%d:%s=%s", certs, trace.String(), final), nil
 }
 
 func genConc(r *c.Rng) *ConcCase {
+	if r.Chance(1, 3) { // responses to one challenge: three database calls each
+		k := &ConcCase{Chal: true, Ths: c.Pick(r, []string{"st", "ts", "sj", "js", "tj", "stt", "sjt", "ss", "tts"})}
+		var pool []int
+		for i := range k.Ths {
+			pool = append(pool, i, i, i)
+		}
+		for i := len(pool) - 1; i > 0; i-- {
+			j := r.Intn(i + 1)
+			pool[i], pool[j] = pool[j], pool[i]
+		}
+		k.Sched = pool
+		return k
+	}
 	k := &ConcCase{Ths: c.Pick(r, []string{"ff", "ff", "fp", "pf", "ffp", "fff", "fpp"})}
 	var pool []int
 	for i, kind := range k.Ths {
@@ -174,5 +293,9 @@ func cornerConc() []*ConcCase {
 		{Ths: "fp", Sched: []int{0, 1, 0, 0, 0, 1, 1}},    // conc_terminal_overwritten: valid -> invalid
 		{Ths: "fp", Sched: []int{0, 1, 1, 1, 0, 0, 0}},    // invalid -> valid
 		{Ths: "ff", Sched: []int{0, 0, 0, 0, 1, 1, 1, 1}}, // sequential: one certificate
+		{Chal: true, Ths: "ts", Sched: []int{0, 1, 0, 1, 1, 0}}, // ch_lost_swap_keeps_valid
+		{Chal: true, Ths: "ts", Sched: []int{0, 1, 1, 1, 0, 0}}, // ch_terminal_overwritten: valid -> pending
+		{Chal: true, Ths: "js", Sched: []int{0, 1, 1, 1, 0, 0}}, // valid -> invalid
+		{Chal: true, Ths: "st", Sched: []int{0, 0, 0, 1, 1, 1}}, // sequential: the second response finds it valid
 	}
 }
